@@ -162,10 +162,14 @@ class MechAdapter(Adapter):
 
 
 class PopAdapter(Adapter):
-    def __init__(self, spec, n_ids):
+    def __init__(self, spec, n_ids, renamed=False):
         self.spec = spec
         self.n_ids = n_ids
+        # renamed: dimension and covariate names are set on the WRAPPER after it was
+        # created; parameters are then addressed by the names the wrapper reports
+        self.renamed = renamed
         m = popbuild.build(spec, n_ids)
+        self._rename(m)
         self.names = list(m.get_parameter_names())
         self.base = popvals.top_values(spec, n_ids, 0)
         self.cov = popvals.covariates(spec, n_ids, 0)
@@ -175,8 +179,17 @@ class PopAdapter(Adapter):
         # pooled / heterogeneous dims: observations must follow fixed values
         self.special = any(x is not None for x in rp.special(spec))
 
+    def _rename(self, m):
+        if self.renamed:
+            m.set_dim_names(['d%s' % chr(97 + i) for i in range(m.n_dim())])
+            if m.n_covariates():
+                m.set_covariate_names(
+                    ['c%s' % chr(97 + i) for i in range(m.n_covariates())])
+
     def make(self):
-        return chi.ReducedPopulationModel(popbuild.build(self.spec, self.n_ids))
+        m = chi.ReducedPopulationModel(popbuild.build(self.spec, self.n_ids))
+        self._rename(m)
+        return m
 
     def n_fixed(self, obj):
         return obj.n_fixed_parameters()
@@ -184,6 +197,12 @@ class PopAdapter(Adapter):
     def copy(self, obj):
         import copy
         return copy.deepcopy(obj)
+
+    @staticmethod
+    def _special(m):
+        sd, n_p, n_h = m.get_special_dims()
+        return [[int(v) for v in e[:4]] + [bool(e[4])] for e in sd], int(n_p), \
+            int(n_h)
 
     def _obs(self, full):
         if not self.special:
@@ -203,9 +222,12 @@ class PopAdapter(Adapter):
             np.array(x), obs, dlogp_dpsi=self.c.copy(), reduce=True, **kw)
         psi = obj.compute_individual_parameters(np.array(x), obs, **kw)
         smp = obj.sample(np.array(x), n_samples=self.n_ids, seed=5, **kw)
+        sd, n_p, n_h = self._special(obj)
         return {'ll': ll, 'score': s, 'dpsi': dpsi, 'dtheta': dth, 'score_r': s2,
                 'reduce': ds, 'psi': psi, 'sample': smp,
-                'n_hier': list(obj.n_hierarchical_parameters(self.n_ids))}
+                'n_hier': list(obj.n_hierarchical_parameters(self.n_ids)),
+                'special_dims': np.array(sd, dtype=float).flatten(),
+                'n_special': [n_p, n_h]}
 
     def reference(self, full, free_idx):
         m = popbuild.build(self.spec, self.n_ids)
@@ -217,7 +239,15 @@ class PopAdapter(Adapter):
         s2, ds = m.compute_sensitivities(
             full, obs, dlogp_dpsi=self.c.copy(), reduce=True, **kw)
         nb = rp.n_bottom(self.spec, self.n_ids)
-        return {'ll': m.compute_log_likelihood(full, obs, **kw), 'score': s,
+        # pooled / heterogeneous blocks: same dimensions, parameter positions
+        # counted in the vector of free parameters
+        sd, n_p, n_h = self._special(m)
+        fixed_before = lambda p_: sum(1 for i in range(p_) if i not in free_idx)
+        sd = [[e[0], e[1], e[2] - fixed_before(e[2]), e[3] - fixed_before(e[3]),
+               e[4]] for e in sd]
+        return {'special_dims': np.array(sd, dtype=float).flatten(),
+                'n_special': [n_p, n_h],
+                'll': m.compute_log_likelihood(full, obs, **kw), 'score': s,
                 'dpsi': dpsi, 'dtheta': np.asarray(dth)[free_idx], 'score_r': s2,
                 'reduce': np.concatenate(
                     (np.asarray(ds)[:nb], np.asarray(ds)[nb:][free_idx])),
@@ -357,7 +387,9 @@ def adapter(kind):
     if kind.startswith('mech:'):
         return MechAdapter(kind[5:])
     if kind.startswith('pop:'):
-        return PopAdapter(POP_SPECS[kind[4:]][0], POP_SPECS[kind[4:]][1])
+        key = kind[4:].split(':')[0]
+        return PopAdapter(POP_SPECS[key][0], POP_SPECS[key][1],
+                          renamed=kind.endswith(':renamed'))
     return {'ll': LLAdapter, 'pred': PredAdapter, 'poppred': PopPredAdapter,
             'ctrl': CtrlAdapter}[kind]()
 
@@ -368,6 +400,8 @@ POP_SPECS = {
     'comp': (rp.Comp([rp.P(1), rp.H(1), rp.LN(1, False)]), 2),
     'cov': (rp.Cov(rp.G(1), 1), 2),
     'compcov': (rp.Comp([rp.Cov(rp.LN(1), 1), rp.P(1)]), 2),
+    # a regular sub-model in front of a pooled and a heterogeneous block
+    'gp': (rp.Comp([rp.G(1), rp.P(1), rp.H(1)]), 2),
 }
 
 
@@ -566,6 +600,10 @@ def ops_for(n, with_eval=True):
     for i in range(n - 1):
         ops.append(['fix', [[i, 'v1'], [i + 1, 'v2']]])
         ops.append(['fix', [[i, 'free'], [i + 1, 'v1']]])
+    if n > 1:
+        # a dictionary written down against the parameter order
+        ops.append(['fix', [[n - 1, 'v1'], [0, 'v2']]])
+        ops.append(['fix', [[n - 1, 'free'], [0, 'v1']]])
     if with_eval:
         ops.append(['eval'])
     return ops
@@ -575,7 +613,8 @@ WORKERS = {'pop_nids': w_pop_nids}
 ALL_KINDS = ['err:G', 'err:M', 'err:CM', 'err:LN', 'mech:toy', 'mech:sbml',
              'mech:toy:sens', 'mech:sbml:sens', 'mech:sbmlren', 'mech:sbmlren:sens',
              'll',
-             'pred', 'poppred', 'ctrl'] + ['pop:' + k for k in POP_SPECS]
+             'pred', 'poppred', 'ctrl'] + ['pop:' + k for k in POP_SPECS] + [
+                 'pop:comp:renamed', 'pop:compcov:renamed', 'pop:gp']
 for _k in ALL_KINDS:
     WORKERS['fix_' + _k] = w_history
 
@@ -629,7 +668,8 @@ def build(tier, seed):
         'err:CM', 'mech:toy', 'mech:sbml', 'mech:sbml:sens', 'mech:sbmlren:sens',
         'll', 'pred',
         'poppred', 'ctrl',
-        'pop:G1', 'pop:comp', 'pop:cov', 'pop:H1']
+        'pop:G1', 'pop:comp', 'pop:cov', 'pop:H1', 'pop:gp',
+        'pop:compcov:renamed']
     depth = 12   # the searches stop at closure (no new abstract state)
     nids = []
     for spec in [rp.Comp([rp.H(1), rp.LN(1)]), rp.Comp([rp.G(1), rp.H(1), rp.P(1)]),
